@@ -105,6 +105,9 @@ func invariantIn(v ssa.Value, body map[*ssa.BasicBlock]bool, seen map[ssa.Value]
 					}
 					return true
 				}
+				if fv, ok := y.X.(*ssa.FreeVar); ok {
+					return capturedNeverReassigned(fv)
+				}
 				if al, ok := y.X.(*ssa.Alloc); ok {
 					for b := range body {
 						for _, in := range b.Instrs {
@@ -334,3 +337,71 @@ var acyclicLinks = map[string]string{
 
 var _ = types.Typ
 var _ = strings.Contains
+
+// capturedNeverReassigned: the variable behind a closure's free variable is a spilled parameter (or a local
+// initialised once) of the enclosing function that no function sharing it assigns again: its value is the
+// same at every load, whatever runs between two loads.
+func capturedNeverReassigned(fv *ssa.FreeVar) bool {
+	fn := fv.Parent()
+	parent := fn.Parent()
+	if parent == nil {
+		return false
+	}
+	idx := -1
+	for i, f := range fn.FreeVars {
+		if f == fv {
+			idx = i
+		}
+	}
+	if idx < 0 {
+		return false
+	}
+	var cell ssa.Value
+	for _, b := range parent.Blocks {
+		for _, in := range b.Instrs {
+			if mc, ok := in.(*ssa.MakeClosure); ok && mc.Fn == ssa.Value(fn) && idx < len(mc.Bindings) {
+				if cell != nil && cell != mc.Bindings[idx] {
+					return false
+				}
+				cell = mc.Bindings[idx]
+			}
+		}
+	}
+	al, ok := cell.(*ssa.Alloc)
+	if !ok || al.Referrers() == nil {
+		return false
+	}
+	stores := 0
+	for _, ref := range *al.Referrers() {
+		switch r := ref.(type) {
+		case *ssa.Store:
+			if r.Addr != ssa.Value(al) {
+				return false // the address itself is stored somewhere
+			}
+			stores++
+		case *ssa.UnOp, *ssa.DebugRef:
+		case *ssa.MakeClosure:
+			cl, ok := r.Fn.(*ssa.Function)
+			if !ok {
+				return false
+			}
+			for i, bnd := range r.Bindings {
+				if bnd != ssa.Value(al) || i >= len(cl.FreeVars) {
+					continue
+				}
+				if refs := cl.FreeVars[i].Referrers(); refs != nil {
+					for _, fr := range *refs {
+						switch fr.(type) {
+						case *ssa.UnOp, *ssa.DebugRef:
+						default:
+							return false // written, or passed on, inside a closure
+						}
+					}
+				}
+			}
+		default:
+			return false
+		}
+	}
+	return stores <= 1
+}
